@@ -175,6 +175,10 @@ func C03Catalogue() []CatCase {
 		"interval":        func(g *gen.G) gen.X { return g.Interval("1 day") },
 		"interval-arith":  func(g *gen.G) gen.X { return g.Bin("+", g.Ident("a"), g.Interval("2 hours")) },
 		"tuple":           func(g *gen.G) gen.X { return g.Tuple([]gen.X{g.Ident("a"), g.Int("1")}) },
+		"match-against":   func(g *gen.G) gen.X { return g.Match([]gen.X{g.Ident("a")}, g.Str("x"), "") },
+		"match-boolean":   func(g *gen.G) gen.X { return g.Match([]gen.X{g.Ident("a"), g.Ident("b")}, g.Str("+x -y"), "IN BOOLEAN MODE") },
+		"match-natural":   func(g *gen.G) gen.X { return g.Match([]gen.X{g.Ident("a")}, g.Str("x"), "IN NATURAL LANGUAGE MODE") },
+		"match-expansion": func(g *gen.G) gen.X { return g.Match([]gen.X{g.Ident("a")}, g.Str("x"), "WITH QUERY EXPANSION") },
 	}
 	for _, j := range gen.JSONOps {
 		j := j
